@@ -75,7 +75,8 @@ func MergeContexts(ctx1, ctx2 context.Context) (context.Context, context.CancelC
 	if ctx2 == bgContext {
 		return ctx1, noop
 	}
-	ctx, cancel := context.WithCancelCause(context.Background())
+	// Derive from ctx1 so that the merged context carries its values and deadline
+	ctx, cancel := context.WithCancelCause(ctx1)
 	go func() {
 		select {
 		case <-ctx1.Done():
